@@ -540,6 +540,82 @@ theorem c14_streamed_text (limit : Int) (stops : List Bytes) (evs : List Ev) (ho
   · intro hd
     exact ((consumer_schedule_independent false limit stops evs cap tail sched).2.2 hd).1
 
+/-! ### 5c'. the same statement with the hypothesis on the SCRIPT (the input), not on the run's own ghost output -/
+
+/-- the pieces of a script, EOS events left out -/
+def scriptPieces : List Ev → List Bytes
+  | [] => []
+  | .piece p :: r => p :: scriptPieces r
+  | .eos :: r => scriptPieces r
+
+/-- the text the whole script spells -/
+def scriptText (evs : List Ev) : Bytes := (scriptPieces evs).flatten
+
+theorem scriptPieces_append (a b : List Ev) : scriptPieces (a ++ b) = scriptPieces a ++ scriptPieces b := by
+  induction a with
+  | nil => rfl
+  | cons e a ih => cases e <;> simp [scriptPieces, ih]
+
+theorem scriptPieces_map_piece (g : List Bytes) : scriptPieces (g.map Ev.piece) = g := by
+  induction g with
+  | nil => rfl
+  | cons p g ih => simp [scriptPieces, ih]
+
+/-- the text generated by a run is a prefix of the text its script spells -/
+theorem genText_prefix_script (pinned : Bool) (limit : Int) (stops : List Bytes) (evs : List Ev) :
+    (run pinned limit stops init evs).genText <+: scriptText evs := by
+  obtain ⟨rest, hrest⟩ := (cause_spec pinned limit stops evs).1
+  refine ⟨(scriptPieces rest).flatten, ?_⟩
+  have h : scriptPieces evs = (run pinned limit stops init evs).gen ++ scriptPieces rest := by
+    have h0 := congrArg scriptPieces hrest
+    rw [scriptPieces_append, scriptPieces_map_piece] at h0
+    exact h0.symm
+  show (run pinned limit stops init evs).gen.flatten ++ _ = (scriptPieces evs).flatten
+  rw [h, List.flatten_append]
+
+/-- **C14 stated on the input.**  `c14_streamed_text` with the hypothesis moved from the run's own ghost field
+    (`ValidPrefix f.genText`) to the script: if the pieces of the script spell (a prefix of) valid UTF-8 — whatever
+    way characters and stop strings are split over the pieces, wherever EOS events sit — then all five clauses hold. -/
+theorem c14_script (limit : Int) (stops : List Bytes) (evs : List Ev) (hok : StopsOk stops)
+    (cap tail : Nat) (sched : List Nat) (hscript : ValidPrefix (scriptText evs)) :
+    let f := run false limit stops init evs
+    ((∀ c ∈ f.out, validUtf8 c = true ∧ c ≠ []) ∧ f.outText <+: f.genText) ∧
+    (∀ t ∈ stops, ¬ Occurs t f.outText) ∧
+    ((∃ t ∈ stops, Occurs t f.genText) →
+      f.done = some .stop ∧ ∃ s ∈ stops, ∃ idx, indexOf s f.genText = some idx ∧
+        (∀ t ∈ stops, ∀ j, indexOf t f.genText = some j → idx ≤ j) ∧ f.outText = f.genText.take idx) ∧
+    ((∀ t ∈ stops, ¬ Occurs t f.genText) →
+      (f.done = some .stop → f.cause = some .eos ∧ f.outText = trimValid f.genText) ∧
+      (f.done = some .length → f.cause = some .limit ∧ f.outText = trimValid f.genText) ∧
+      (f.done = none → f.outText ++ f.pending.flatten = f.genText)) ∧
+    (f.done.isSome = true → (runSched false limit stops cap tail init {} sched evs).2.recv = f.out) := by
+  intro f
+  obtain ⟨y, hy⟩ := genText_prefix_script false limit stops evs
+  have hvp : ValidPrefix f.genText := by
+    rw [← hy] at hscript
+    exact hscript.left
+  exact c14_streamed_text limit stops evs hok cap tail sched hvp
+
+/-- non-vacuity of `c14_script` in the case that matters for the repaired `FindStop`: two stops, the first LISTED
+    (`"z"`) is not the EARLIEST (`"<|"`), a 4-byte character over three tokens, the stop straddling two pieces.
+    The repaired variant streams the emoji and ends on `"<|"`; the pinned variant streams `"<|"` too (F7). -/
+example :
+    let stops : List Bytes := [[0x7a], [0x3c, 0x7c]]
+    let evs := [Ev.piece [0xf0, 0x9f], Ev.piece [0x98], Ev.piece [0x80, 0x3c], Ev.piece [0x7c, 0x7a],
+                Ev.piece [0x71], Ev.eos]
+    (∀ t ∈ stops, t ≠ [] ∧ validUtf8 t = true) ∧ validUtf8 (scriptText evs) = true ∧
+    (run false 9 stops init evs).out = [[0xf0, 0x9f, 0x98, 0x80]] ∧
+    (run false 9 stops init evs).cause = some (.stopString [0x3c, 0x7c]) ∧
+    (run false 9 stops init evs).numPredicted = 4 ∧
+    (run true 9 stops init evs).out = [[0xf0, 0x9f, 0x98, 0x80, 0x3c, 0x7c]] ∧
+    (run true 9 stops init evs).cause = some (.stopString [0x7a]) := by decide
+
+/-- empty pieces (special tokens that decode to `""`) are ordinary events: `"" "a" "" "b"` with stop `"ab"`
+    streams nothing and ends with reason stop after 4 tokens -/
+example :
+    let f := run false 0 [[0x61, 0x62]] init [Ev.piece [], Ev.piece [0x61], Ev.piece [], Ev.piece [0x62], Ev.eos]
+    f.out = [] ∧ f.done = some .stop ∧ f.numPredicted = 4 ∧ f.cause = some (.stopString [0x61, 0x62]) := by decide
+
 /-! ### 5d. one level up: the `completion` HTTP handler and the client -/
 
 /-- **What the client receives.**  For the handler's lines of any finished or cancelled run: the
